@@ -372,7 +372,7 @@ fn known_expr_text(s: &str) -> Result<Option<Expr>, ()> {
         "(take .s 1)" => Expr::call("take", vec![Expr::key(0, "s"), Expr::lit("1")]),
         "(+ 10 11) = total" => Expr::call("+", vec![Expr::lit("10"), Expr::lit("11")]),
         // a complete expression followed by something that is not `= name`: not a selection
-        "(" | "(nosuch 1)" | "(+ 1" | "" | "(len)" | "(+ 10 11) junk" | "(+ 10 11))" | ".n junk" | "12 13" | "[1,2]]" | "(+ 1 2) x" | "#99999999999999999999" | ".an#18446744073709551616" => return Ok(None),
+        "(" | "(nosuch 1)" | "(+ 1" | "" | "(len)" | "(+ 10 11) junk" | "(+ 10 11))" | ".n junk" | "12 13" | "[1,2]]" | "(+ 1 2) x" | "#99999999999999999999" | ".an#18446744073709551616" | "'(+ 10 11)'" | "'.n'" | "/s0" => return Ok(None),
         // a valid index far beyond any list: nothing
         "#18446744073709551615" => Expr::Path { up: 0, steps: vec![Step::Idx(usize::MAX)] },
         _ => return Err(()),
